@@ -1,0 +1,6 @@
+//go:build !verif
+
+package internal
+
+// verifYield is the disabled form of the verification schedule hook.
+func verifYield(int) {}
